@@ -344,7 +344,7 @@ fn main() {
     s.shard_size = 120;
     s.rule = "finish-heavy histories: (a) a single bar on a 1/20/255 Hz target, 25-45 zero-gap ordinary updates (both limiters exhausted), then finish/finish_with_message/finish_and_clear/abandon/abandon_with_message/finish_using_style/drop with every stored ProgressFinish, more calls, then drop; (b) MultiProgress histories with bursts, finishes and drops of all bars in random order; (c) iterator-driven completion (ProgressBarIter::next recorded call by call); oracle: final state, the finishing call paints exactly the rendering of the final state, is_finished() afterwards, dropping a finished bar makes no call, kept bars stay in order (screen oracle); non-trivial = contains a finish/abandon/drop after at least 10 ops (iterator: at least 3 items); distinct = distinct case text".into();
     let mut r = Rng::new(a.seed);
-    let n = if a.thorough { 6000 } else if a.extended { 3000 } else { 500 };
+    let n = if a.thorough { 4000 } else if a.extended { 3000 } else { 500 };
     let mut cases = vec![];
     for i in 0..n {
         if i % 2 == 0 {
